@@ -136,7 +136,7 @@ fn extract_players(server_vars: &mut HashMap<String, String>) -> GDResult<Vec<Pl
 
     // A skipped index is a player without any field (and so without a name)
     if let Some(last_index) = players_data.keys().next_back() {
-        if *last_index + 1 != players_data.len() {
+        if *last_index != players_data.len() - 1 {
             return Err(GDErrorKind::PacketBad.context("Missing player index"));
         }
     }
